@@ -45,6 +45,7 @@ Section R.
   Definition r_dvc := op_dvc RE.
   Definition r_blindsign := op_blindsign RE.
   Definition r_blindverify := op_blindverify RE.
+  Definition r_prep := op_prep RE.
   Definition r_blindproofgen a b c d e f g h i (rho : list N) :=
     op_blindproofgen RE a b c d e f g h i rho.
   Definition r_blindproofverify := op_blindproofverify RE.
@@ -101,7 +102,7 @@ Definition scalar_of_be (b : bytes) : option N := fr_of_be b.
 
 Extraction "model.ml"
   r_keygen r_keyrandom r_sk2pk r_gens r_h2s r_m2s r_ms2s r_sign r_verify r_update r_proofgen
-  r_proofverify r_proofverify_raw r_commit r_dvc r_blindsign r_blindverify r_blindproofgen r_blindproofverify
+  r_proofverify r_proofverify_raw r_commit r_dvc r_blindsign r_blindverify r_prep r_blindproofgen r_blindproofverify
   r_dec_pk r_dec_sk r_dec_sig r_dec_proof r_dec_zkpok r_dec_commit r_dec_blind r_dec_pkxy
   r_dec_pk2xy scalar_of_be N.of_nat N.to_nat
   c_params c_map c_keygen c_bases c_cpk c_sign c_sign1 c_verify c_verify1 c_disclose c_sigcodec c_sigfrombytes c_pkcodec
